@@ -197,6 +197,15 @@ func checkC09(w *Worker) {
 					if k > 0 {
 						lintFirst = got[0]
 					}
+					// lint is a command that reads the file: with malformed lines it must not report success, silent or not
+					if k > 0 && !r.Failed {
+						x.Violate("C09|lint|success-on-malformed-file", fmt.Sprintf("`%s` prints the %d messages and then reports success (exit status 0)", c.shell(), k), rep)
+						return
+					}
+					if k == 0 && r.Failed {
+						x.Violate("C09|lint|failure-on-well-formed-file", fmt.Sprintf("`%s` fails on a well-formed file: %s", c.shell(), r.Err), rep)
+						return
+					}
 				}
 				if k > 0 {
 					// "with the same messages": what lint prints for the first malformed line is what a reading command fails with
